@@ -60,6 +60,23 @@ type scenario struct {
 	seen    int
 	lastWire []byte
 	lastFrom string
+	lastPID  string
+}
+
+// held: does the node still keep the bundle with this payload id?
+func (sc *scenario) held(pid string) bool {
+	pend, err := sc.s.Pending()
+	if err != nil {
+		return false
+	}
+	for _, it := range pend {
+		for _, p := range it.PIDs {
+			if p == pid {
+				return true
+			}
+		}
+	}
+	return false
 }
 
 func (sc *scenario) algo() string {
@@ -148,19 +165,20 @@ func (sc *scenario) apply(ev int, rng *report.Rand) {
 		if err := sc.s.Deliver(from, wire); err != nil {
 			delete(sc.bundles, pid)
 		} else {
-			sc.lastWire, sc.lastFrom = wire, from
+			sc.lastWire, sc.lastFrom, sc.lastPID = wire, from, pid
 		}
 	case evRxDuplicate:
-		if sc.lastWire != nil {
+		// only while the node still holds the bundle: once it is gone, a further reception is a new bundle to the node
+		if sc.lastWire != nil && sc.lastPID != "" && sc.held(sc.lastPID) {
 			if from := sc.firstUp(); from != "" && from != "far" {
 				_ = sc.s.Deliver(from, sc.lastWire)
 			}
 		}
 	case evOwnBack:
-		// the first transmitted copy of a locally originated bundle is handed back by a peer
+		// a transmitted copy of a locally originated bundle the node still holds is handed back by a peer
 		if from := sc.firstUp(); from != "" && from != "far" {
 			for _, rec := range sc.s.Sends() {
-				if b := sc.bundles[rec.PID]; b != nil && b.local && rec.ParseErr == "" {
+				if b := sc.bundles[rec.PID]; b != nil && b.local && rec.ParseErr == "" && !b.delivered && sc.held(rec.PID) {
 					_ = sc.s.Deliver(from, rec.Bytes)
 					break
 				}
@@ -455,6 +473,7 @@ func TestCheck(t *testing.T) {
 	bubble.SetT(t)
 	r := report.Start(t, "C18")
 	defer r.Finish()
+	bubble.WatchDeadlocks(3, func(frame, dump string) { r.DeadlockVerdict("c18", frame, dump) })
 
 	run := func(binary bool, L uint64, evs []int, rng *report.Rand) {
 		if err := runHistory(r, binary, L, evs, rng); err != nil {
